@@ -151,9 +151,10 @@ def _source_member(e, param_name):
     return None
 
 
-def copy_ctor_coverage(run, rule, F):
+def copy_ctor_coverage(run, rule, F, decided_elsewhere=None):
     """Every user-provided copy/move constructor initialises every base and member from the same base/member
-    of its argument."""
+    of its argument. `decided_elsewhere(rec)` -> text or None: a record whose hand-written copy is decided by a semantic rule (the bit
+    array, whose copies are interpreted bit by bit for every capacity); this reading of the initialiser list steps aside for it."""
     n = 0
     for rec in F.records:
         name = rec['name']
@@ -161,6 +162,11 @@ def copy_ctor_coverage(run, rule, F):
             continue
         for c in rec['ctors']:
             if c.get('ctorkind') not in ('copy', 'move') or not c.get('user_provided'):
+                continue
+            why = decided_elsewhere(rec) if decided_elsewhere else None
+            if why:
+                n += 1
+                run.ob(rule, '%s %s constructor: %s' % (short(rec.get('_tkey') or name), c['ctorkind'], why), True, where=c.get('l'))
                 continue
             fn = F.fn(c['fn'])
             if fn is None:
